@@ -40,14 +40,12 @@ Theorem C07_no_legal_move_null : forall (T : Tables.t) good Q, C03_family T good
 Proof. exact C07_no_legal_move_null_thm. Qed.
 Print Assumptions C07_no_legal_move_null.
 
-(* NOT YET PROVED (C07_bestmove_exists): the converse direction for the first iteration,
-     forall ... , s_nm_nodes = 0 at the start of the go -> |gen_pseudo| < poll orc ->
-       (exists m, In m (root_moves T g b) /\ is_move_legal T b m = true) -> announced log <> None.
-   What is there: [C07_first_iteration_not_interruptible] (iteration 1 is never aborted by the oracle) and the loop
-   invariant of [nm_loop_ext].  What is missing: a bound  - win_score < value < win_score  on every value a child of
-   the root can return (static evaluation, mate scores `loss + fullmove`, capture search, repetition leaf), because
-   the root takes a move only when `child_value > best_value` with best_value initialised to loss_score = -win_score.
-   The bound is FALSE for full-move numbers >= 2^24 (known finding D17), so it needs a range hypothesis on the clock. *)
+(* The converse direction (a legal root move exists -> the announced move is not null) is C07_bestmove_exists in
+   Properties/C07_exists.v (Proofs/ValueBound.v): it needs the value bound  loss_score < value < win_score  on every
+   value a child of the root can return, which holds exactly for  full-move number + side to move < 2 * win_score = 2^25
+   (sharp: C07_bestmove_exists_refuted_at_2p25, known finding fullmove_ge_2p25), and the fact that iteration 1 cannot
+   be interrupted because a position has at most 41218 pseudo-legal moves in the model's counting, below the polling
+   period 100000.  C07_answer combines the three statements. *)
 
 (* ================================================================================================================
    GLUE (Proofs/ChessInstance.v, Proofs/Preserve.v): [C03_family] discharged; the two theorems above for the tables
